@@ -41,6 +41,13 @@ ALPHABET = [
     ("3", "second"), ("0", "second"), ("1/20", "minute"),
     ("1", "newton"), ("100000", "dyne"), ("1", "kilogram*meter/second**2"),
 ]
+# compound units that differ only in the SIGN or SIZE of one exponent (conversion memos keyed on such containers must not
+# confuse them), each at magnitudes that make some pairs equal
+SIBLINGS = [
+    ("1", "kilometer/second"), ("1000", "meter/second"), ("1000", "meter/second**2"), ("1", "kilometer/second**2"), ("1", "kilometer/second**3"), ("1000", "meter/second**3"),
+    ("1", "kilometer*second"), ("1000", "meter*second"), ("1", "kilometer*second**2"), ("1000", "meter*second**2"), ("1", "kilometer**-1"), ("1/1000", "meter**-1"),
+    ("1", "kilometer**-2"), ("1/1000000", "meter**-2"), ("0", "meter/second"), ("0", "meter/second**2"), ("1", "kilometer**2"), ("1000000", "meter**2"), ("1000", "meter"), ("1", "kilometer"),
+]
 NUMBERS = ["0", "1", "0.0", "nan", "1/2", "-1"]
 UNIT_ALPHA = ["inch", "foot", "meter", "kilometer", "second", "minute", "hertz", "becquerel", "radian", "count", "newton", "dyne"]
 
@@ -92,7 +99,7 @@ def phys(M, mag_s, unit):
 
 def shards(tier, seed):
     out = [("alphabet", "Fraction"), ("alphabet", "float"), ("alphabet", "Fraction", "after-named-system-queries"), ("alphabet", "Fraction", "default_system=cgs"), ("alphabet", "Fraction", "default_system=imperial"),
-           ("alphabet", "Fraction", "after-default-system-round-trip"), ("decimal-magnitudes",), ("numbers", "Fraction"), ("numbers", "float"), ("units", "Fraction"), ("units", "float"), ("modes",), ("constructor-paths",)] + [("object-histories", i) for i in range(len(OBJ_STARTS))]
+           ("alphabet", "Fraction", "after-default-system-round-trip"), ("decimal-magnitudes",), ("numbers", "Fraction"), ("numbers", "float"), ("units", "Fraction"), ("units", "float"), ("modes",), ("constructor-paths",), ("siblings", "Fraction", "fresh"), ("siblings", "float", "fresh"), ("siblings", "Fraction", "after-all-pairs")] + [("object-histories", i) for i in range(len(OBJ_STARTS))]
     if tier == "thorough":
         for b in range(12):
             out.append(("allunits", b, 12))
@@ -110,7 +117,7 @@ def call(fn):
         return ("exc:" + type(e).__name__, msg)
 
 
-def run_alphabet(acc, nt, history="fresh"):
+def run_alphabet(acc, nt, history="fresh", ALPHABET=ALPHABET):
     M = model()
     ureg = regs.default(nt, fresh=(history != "fresh"))
     Q = ureg.Quantity
@@ -133,6 +140,10 @@ def run_alphabet(acc, nt, history="fresh"):
     qs = [Q(parse_mag(m, nt), u) for m, u, _ in items]
     n = len(qs)
     acc.dim("alphabet size", n)
+    if history == "after-all-pairs":
+        for i, j in itertools.product(range(n), repeat=2):
+            call(lambda: qs[i] == qs[j])
+            call(lambda: qs[i] < qs[j])
     eqm = [[None] * n for _ in range(n)]
     for i, j in itertools.product(range(n), repeat=2):
         (ma, ua, (dka, va, ka)), (mb, ub, (dkb, vb, kb)) = items[i], items[j]
@@ -140,6 +151,8 @@ def run_alphabet(acc, nt, history="fresh"):
         case = {"nt": nt, "a": [ma, ua], "b": [mb, ub]}
         if history != "fresh":
             case["registry_history"] = history
+        if ALPHABET is SIBLINGS:
+            case["alphabet"] = "siblings"
         kp = f"{ka}-vs-{kb}"
         if i != j:
             acc.nt(("pair", nt, i, j, history))
@@ -201,6 +214,7 @@ def run_alphabet(acc, nt, history="fresh"):
                         acc.violation(["quantity-law", "==", "not-transitive"], {"nt": nt, "a": list(items[i][:2]), "b": list(items[j][:2]), "c": list(items[k][:2])}, True, eqm[i][k])
     acc.sample({"clause": "quantity-pair", "nt": nt, "a": list(ALPHABET[0]), "b": list(ALPHABET[1]), "ops": ["==", "!=", "hash", "<", "<=", ">", ">="]})
     acc.sample({"clause": "quantity-law", "nt": nt, "triple": [list(ALPHABET[12]), list(ALPHABET[13]), list(ALPHABET[14])]})
+    return
 
 
 def run_decimal_magnitudes(acc):
@@ -575,6 +589,8 @@ def run_shard(acc, shard, tier, seed):
         run_modes(acc)
     elif k == "constructor-paths":
         run_constructor_paths(acc)
+    elif k == "siblings":
+        run_alphabet(acc, shard[1], shard[2], ALPHABET=SIBLINGS)
     elif k == "object-histories":
         run_object_histories(acc, shard[1])
     elif k == "allunits":
@@ -594,7 +610,7 @@ def replay(rec):
     elif site[-1] == "Decimal-magnitudes-in-the-float-registry":
         run_decimal_magnitudes(acc)
     elif site[0] in ("quantity-pair", "quantity-law"):
-        run_alphabet(acc, nt, case.get("registry_history", "fresh"))
+        run_alphabet(acc, nt, case.get("registry_history", "fresh"), ALPHABET=SIBLINGS if case.get("alphabet") == "siblings" else ALPHABET)
         if rec.get("tier") == "thorough" and tuple(site) not in {tuple(v["site"]) for v in acc.violations}:
             for b in range(12):
                 run_allunits(acc, b, 12)
